@@ -13,8 +13,11 @@
    afterwards; each line must equal Level A's.  gcc is consulted only when chibicc
    disagrees with the spec (spec bug guard).  Families added after the seeded round: cast
    chains (T)(U)x explicit and through the conversion contexts; pointers (p + i, i + p,
-   p - i, p - q, comparisons) into a reserved address range standing for a huge array."""
-import json, os
+   p - i, p - q, comparisons) into a reserved address range standing for a huge array.
+3. Trace validation (hook H4): the typing decision add_type takes for every arithmetic node
+   while the tree's chibicc compiles generated programs, the repository's tests and (thorough)
+   its own sources is checked by TLC against CInt.ResultType (tla/expr/TypeTrace.tla)."""
+import glob, json, os, subprocess
 import vt, cexpr
 from vt import Infra
 from cexpr import CT, OPS, lit, leaves, render
@@ -157,6 +160,103 @@ def judge(ctx, tree, vecs, tag):
     return len(bad)
 
 
+# ------------------------------------------------------- trace validation (hook H4)
+def record_typing(ctx, tree, sources, label, incs=()):
+    """Compile each source with the tree's chibicc under CHIBICC_VERIF_TRACE and return, per
+    compiler process, the H4 typing events add_type logged: [(source, pid, [event, ...])]."""
+    d = ctx.tmp("ty-" + label)
+
+    def one(src):
+        tf = "%s/%s.trace" % (d, os.path.basename(src))
+        env = dict(os.environ, CHIBICC_VERIF_TRACE=tf)
+        subprocess.run([tree + "/chibicc", "-I" + tree + "/include"] + ["-I" + i for i in incs] + ["-c", "-o", "/dev/null", src],
+                       capture_output=True, text=True, env=env, timeout=300)
+        bypid = {}
+        if os.path.exists(tf):
+            with open(tf) as f:
+                for l in f:
+                    if '"e":"ty"' in l:
+                        r = json.loads(l)
+                        bypid.setdefault(r["pid"], []).append(r)
+            os.unlink(tf)
+        return [(os.path.basename(src), pid, [dict(e="ty", k=r["k"], l=r["l"], r=r["r"], t=r["t"])
+                                               for r in sorted(rs, key=lambda r: r["seq"])])
+                for pid, rs in sorted(bypid.items())]
+    out = []
+    for r in vt.pmap(one, sources):
+        out += r
+    return out
+
+
+INT_TYPES = set(CT)
+WRONG = {"int": "uint", "uint": "int", "long": "int", "ulong": "long"}
+
+
+def validate_typing(ctx, procs, label):
+    """TLC checks every recorded typing decision against CInt.ResultType (TypeTrace.tla).  One doctored
+    event (a real event with its result type falsified) is appended: the run is accepted iff TLC explains
+    every real event and stops exactly at the doctored one (sensitivity control; else exit 2)."""
+    evs = []
+    for src, pid, es in procs:
+        evs.append(dict(e="reset", src=src, pid=pid))
+        evs += es
+    real = [e for e in evs if e["e"] == "ty" and e["l"] in INT_TYPES and e["r"] in INT_TYPES and e["t"] in WRONG]
+    if not real:
+        raise Infra("no H4 typing events recorded (%s): is the tree built with -DCHIBICC_VERIF and hook H4 present?" % label)
+    doctored = dict(real[0], t=WRONG[real[0]["t"]])
+    dropped = []
+    for attempt in range(6):
+        tf = os.path.join(ctx.scratch, "typing-%s-%d.ndjson" % (label, attempt))
+        vt.write_ndjson(tf, evs + [doctored])
+        res = ctx.tlc("expr", "TypeTrace", "TypeTrace.cfg", env=dict(TRACE=tf), workers=1, timeout=1200, count=(attempt == 0))
+        if res.ok and res.depth == len(evs) + 1:
+            break                                            # every real event explained, the doctored one refused
+        if res.ok and res.depth == len(evs) + 2:
+            raise Infra("sensitivity control failed: TypeTrace accepts the doctored event %s" % doctored)
+        res2 = ctx.tlc("expr", "TypeTrace", "TypeTrace.cfg", env=dict(TRACE=tf), workers=1, timeout=1200, count=False)
+        if res2.depth != res.depth or not 1 <= res.depth <= len(evs):
+            raise Infra("typing trace validation not reproducible (%s: depth %d vs %d of %d)" % (label, res.depth, res2.depth, len(evs)))
+        bad = evs[res.depth - 1]                             # the first event the specification does not explain
+        src = next((e["src"] for e in reversed(evs[:res.depth]) if e["e"] == "reset"), "?")
+        ctx.report("trace:typing:%s:%s,%s->%s" % (bad["k"], bad["l"], bad["r"], bad["t"]),
+                   "add_type typed a `%s` node with operands %s, %s as %s while compiling %s; C11 prescribes another size/signedness"
+                   % (bad["k"], bad["l"], bad["r"], bad["t"], src),
+                   case=dict(kind="typing", event=bad, source=src, label=label))
+        dropped.append(bad)
+        evs = [e for e in evs if e != bad]                   # look for further, different rejections
+        os.unlink(tf)
+    nev = sum(1 for e in evs if e["e"] == "ty") + sum(1 for _ in dropped)
+    ctx.cov["traces_validated_against_impl"] += len(procs)
+    ctx.cov["trace_events"] = ctx.cov.get("trace_events", 0) + nev
+    for src, pid, es in procs:
+        ctx.note_case("typing-trace|%s|%s" % (label, src))
+    return not dropped
+
+
+def typing_traces(ctx, tree, vec):
+    """(a) a seed-selected part of the generated programs, (b) the repository's arithmetic tests,
+    thorough: every test and the compiler's own sources."""
+    q = ctx.quick
+    wd = ctx.tmp("ty-src")
+    items = list(enumerate(vec))
+    chunks = [items[i:i + 300] for i in range(0, len(items), 300)]
+    chunks = vt.subsample(chunks, ctx.seed, 20 if q else 4)
+    gen = []
+    for j, ch in enumerate(chunks):
+        p = "%s/gen%d.c" % (wd, j)
+        open(p, "w").write(mkprog(ch))
+        gen.append(p)
+    ok = validate_typing(ctx, record_typing(ctx, tree, gen, "generated"), "generated")
+    tests = [tree + "/test/%s.c" % t for t in ("arith", "usualconv", "cast")]
+    if not q:
+        tests = sorted(glob.glob(tree + "/test/*.c"))
+    ok &= validate_typing(ctx, record_typing(ctx, tree, tests, "tests", incs=[tree + "/test"]), "tests")
+    if not q:
+        own = sorted(glob.glob(tree + "/*.c"))
+        ok &= validate_typing(ctx, record_typing(ctx, tree, own, "own-sources", incs=[tree]), "own-sources")
+    return ok
+
+
 def run(ctx):
     q = ctx.quick
     tree = ctx.build()
@@ -176,7 +276,12 @@ def run(ctx):
     vec = [v for v in vec if not v["dz"]]
     nbad = judge(ctx, tree, vec, "c01")
     ctx.phase("replay done (%d disagreements before triage)" % nbad)
+    typing_traces(ctx, tree, vec)
+    ctx.sample(dict(kind="typing trace", events=ctx.cov.get("trace_events", 0),
+                    validated="every add_type decision for an arithmetic node against CInt.ResultType (TypeTrace.tla)"))
+    ctx.phase("typing traces done (%d events)" % ctx.cov.get("trace_events", 0))
     ctx.assumptions += [
+        "H4 events carry type names only: a bit-field operand is logged with its declared type, so the bit-field promotion rule is not checked by the trace",
         "ChibiInt.tla is a hand transcription of type.c/codegen.c; the replayed programs judge the real compiler",
         "implementation-defined choices fixed as gcc/psABI define them: char signed, out-of-range conversion to signed is modular, >> of negative values is arithmetic, an enumerated type with a negative enumerator is int",
         "boundary-value tables (ExprGen.tla Cand) instead of all 2^64 values at real widths; all values only at scaled widths",
@@ -192,6 +297,8 @@ def replay(ctx, path):
     c = c.get("case") or c
     if c.get("kind") == "tlc":
         ctx.tlc_expect_ok(c["area"], c["module"], c["cfg"], "replayed model check", env=c.get("env"))
+    elif c.get("kind") == "typing":
+        validate_typing(ctx, [(c["source"], 0, [c["event"]] + [dict(e="ty", k="add", l="int", r="int", t="int")])], "replay")
     else:
         tree = ctx.build()
         judge(ctx, tree, [c["vec"]], "replay")
